@@ -127,30 +127,68 @@ def objPullRaw (P : Prims) (s : State) (ct ad : Bytes) : Outcome (Bytes × UInt8
     | .err => (.err, r.st)
     | .panic => (.panic, r.st)
 
-/-! ### the `MESSAGEBYTES_MAX` guards
+/-! ### the length guards against the key-stream limit
 
-`push` and `pull` above leave out the two comparisons against
-`CRYPTO_SECRETSTREAM_XCHACHA20POLY1305_MESSAGEBYTES_MAX` (unreachable in a differential run: 256 GiB).
-`pushChecked` / `pullChecked` add exactly those guards, in the position they have in the Rust. -/
+`push` and `pull` above leave out the two comparisons against the maximal message length (unreachable in a
+differential run: 256 GiB).  `pushChecked` / `pullChecked` add exactly those guards, in the position they have
+in the Rust.  Since fix E16 the Rust compares with `KEYSTREAM_MESSAGEBYTES_MAX = MESSAGEBYTES_MAX − 64`
+(`push`: `message.len()`, `pull`: `ciphertext.len() − ABYTES`); before it compared with
+`CRYPTO_SECRETSTREAM_XCHACHA20POLY1305_MESSAGEBYTES_MAX` (`push`: `message.len()`, `pull`: `ciphertext.len()`),
+which is one key-stream block more than the ChaCha20 crate hands out — `pushCheckedOld16` / `pullCheckedOld16`
+keep those guards as counter-models. -/
 
 /-- `SODIUM_SIZE_MAX = min(usize::MAX, u64::MAX as usize)` on a 64-bit target -/
 def SODIUM_SIZE_MAX : Nat := min (2 ^ 64 - 1) (2 ^ 64 - 1)
 
 /-- `CRYPTO_SECRETSTREAM_XCHACHA20POLY1305_MESSAGEBYTES_MAX =
-min(SODIUM_SIZE_MAX - ABYTES, (64u64 * ((1u64 << 32) - 2u64)) as usize)` (src/constants.rs) -/
+min(SODIUM_SIZE_MAX - ABYTES, (64u64 * ((1u64 << 32) - 2u64)) as usize)` (src/constants.rs): the public constant
+(libsodium's value).  Since fix E16 no guard of the secretstream functions compares with it directly. -/
 def MESSAGEBYTES_MAX : Nat := min (SODIUM_SIZE_MAX - ABYTES) (64 * (2 ^ 32 - 2))
 
+/-- `const KEYSTREAM_MESSAGEBYTES_MAX: usize = CRYPTO_SECRETSTREAM_XCHACHA20POLY1305_MESSAGEBYTES_MAX - 64`
+(src/classic/crypto_secretstream_xchacha20poly1305.rs, fix E16): the longest message whose key stream the
+ChaCha20 crate hands out after the two blocks used for the MAC key and the tag -/
+def KEYSTREAM_MESSAGEBYTES_MAX : Nat := MESSAGEBYTES_MAX - 64
+
 /-- `crypto_secretstream_xchacha20poly1305_push` with its second guard
-`if message.len() > …_MESSAGEBYTES_MAX { return Err }` (after the ciphertext-length check) -/
+`if message.len() > KEYSTREAM_MESSAGEBYTES_MAX { return Err }` (after the ciphertext-length check) -/
 def pushChecked (P : Prims) (s : State) (ctLen : Nat) (msg ad : Bytes) (tag : UInt8) : Outcome (Bytes × State) :=
+  if ctLen ≠ msg.length + ABYTES then .err
+  else if msg.length > KEYSTREAM_MESSAGEBYTES_MAX then .err
+  else push P s ctLen msg ad tag
+
+/-- `crypto_secretstream_xchacha20poly1305_pull` with its third guard
+`if ciphertext.len() - ABYTES > KEYSTREAM_MESSAGEBYTES_MAX { return Err }` (after the two length checks; since
+fix E16 the MESSAGE length is compared, as in `push` and in libsodium) -/
+def pullChecked (P : Prims) (s : State) (m : Bytes) (tagv : UInt8) (ct ad : Bytes) : Pulled :=
+  if ct.length < ABYTES then ⟨.err, m, tagv, s⟩
+  else if m.length < ct.length - ABYTES then ⟨.err, m, tagv, s⟩
+  else if ct.length - ABYTES > KEYSTREAM_MESSAGEBYTES_MAX then ⟨.err, m, tagv, s⟩
+  else pull P s m tagv ct ad
+
+/-- `DryocStream<Push>::push` over the guarded classic function -/
+def objPushChecked (P : Prims) (s : State) (msg ad : Bytes) (tag : UInt8) : Outcome (Bytes × State) :=
+  pushChecked P s (msg.length + ABYTES) msg ad tag
+
+/-- `DryocStream<Pull>::pull` over the guarded classic function (state threaded as in `objPullRaw`) -/
+def objPullChecked (P : Prims) (s : State) (ct ad : Bytes) : Outcome (Bytes × UInt8) × State :=
+  if ct.length < ABYTES then (.err, s)
+  else
+    let r := pullChecked P s (zeros (ct.length - ABYTES)) 0 ct ad
+    match r.res with
+    | .ok _ => (.ok (r.buf, r.tag), r.st)
+    | .err => (.err, r.st)
+    | .panic => (.panic, r.st)
+
+/-- counter-model, the guard before fix E16: `if message.len() > …_MESSAGEBYTES_MAX { return Err }` -/
+def pushCheckedOld16 (P : Prims) (s : State) (ctLen : Nat) (msg ad : Bytes) (tag : UInt8) : Outcome (Bytes × State) :=
   if ctLen ≠ msg.length + ABYTES then .err
   else if msg.length > MESSAGEBYTES_MAX then .err
   else push P s ctLen msg ad tag
 
-/-- `crypto_secretstream_xchacha20poly1305_pull` with its third guard
-`if ciphertext.len() > …_MESSAGEBYTES_MAX { return Err }` (after the two length checks; note that the
-Rust compares the CIPHERTEXT length, not `mlen`, against the maximum) -/
-def pullChecked (P : Prims) (s : State) (m : Bytes) (tagv : UInt8) (ct ad : Bytes) : Pulled :=
+/-- counter-model, the guard before fix E16: `if ciphertext.len() > …_MESSAGEBYTES_MAX { return Err }` (the Rust
+compared the CIPHERTEXT length, not `mlen`, against the maximum) -/
+def pullCheckedOld16 (P : Prims) (s : State) (m : Bytes) (tagv : UInt8) (ct ad : Bytes) : Pulled :=
   if ct.length < ABYTES then ⟨.err, m, tagv, s⟩
   else if m.length < ct.length - ABYTES then ⟨.err, m, tagv, s⟩
   else if ct.length > MESSAGEBYTES_MAX then ⟨.err, m, tagv, s⟩
